@@ -47,6 +47,51 @@ def lowerOK (p : Params) (slack : Nat) : Rat → List Event → Bool
   | _, [] => true
   | prev, e :: r => decide (refusedAmong (owed p (e.1 - prev)) (e :: r) ≤ slack) && lowerOK p slack e.1 r
 
+/-! ### which limiter is in force -/
+
+/-- what an observer sees of the limiter serving a schema name: `Type()` and, by type, `MaxInflight()` or
+    `QPS()`/`Burst()` -/
+inductive Seen where
+  | none | exempt | mi (max : Nat) | tb (qps burst : Nat)
+deriving DecidableEq, Repr
+
+def see {β : Type} (O : BOps β) : Option (Limiter β) → Seen
+  | Option.none => .none
+  | some .exempt => .exempt
+  | some (.mi m) => .mi m
+  | some (.tb b) => .tb (O.qps b) (O.burst b)
+
+/-- **the clause**: a schema is served by a limiter of its own type carrying its configured LOCAL parameters
+    (a token-bucket schema: a token bucket with exactly `tokenBucket.qps`, `tokenBucket.burst` — not the global ones) -/
+def inForceOK (s : Schema) (o : Seen) : Bool :=
+  match guessType s with
+  | .exempt => o == .exempt
+  | .maxInflight => match s.mi with
+    | some m => o == .mi m
+    | Option.none => false
+  | .tokenBucket => match s.tb with
+    | some qb => o == .tb qb.1 qb.2
+    | Option.none => false
+
+/-- what admission validation accepts: exactly one local member; a `global*` member only next to its local one -/
+def schemaLegal (s : Schema) : Bool :=
+  ((if s.exempt then 1 else 0) + (if s.mi.isSome then 1 else 0) + (if s.tb.isSome then 1 else 0) == 1) &&
+  (s.gmi.isNone || s.mi.isSome) && (s.gtb.isNone || s.tb.isSome)
+
+/-- distinct names, legal schemas -/
+def specLegal : Spec → Bool
+  | [] => true
+  | (n, s) :: r => (r.lookup n).isNone && schemaLegal s && specLegal r
+
+def opsLegal : List ULOp → Bool
+  | [] => true
+  | .sync sp :: r => specLegal sp && opsLegal r
+  | .acquire _ _ :: r => opsLegal r
+
+/-- every schema of the spec in force is served as configured -/
+def allInForce {β : Type} (O : BOps β) (u : UL β) : Bool :=
+  u.current.all fun x => inForceOK x.2 (see O (u.load x.1))
+
 /-- finished calls (small-step system) that were admitted and lie inside `[t0, t1]`: invoked at or after `t0`,
     returned at or before `t1` -/
 def admittedWithin (t0 t1 : Rat) : List Done → Nat
